@@ -1,6 +1,7 @@
 package readsim
 
 import (
+	"os"
 	"context"
 	"fmt"
 	"hash/fnv"
@@ -140,6 +141,7 @@ func c14body(ri *simcheck.RunInfo, s C14Scenario) {
 	t0 := time.Now()
 	sim := simrt.New(s.Sched, s.SchedSeed)
 	sim.SetPreempt(s.Preempt, s.SchedSeed)
+	sim.MaxSpin = maxSpin
 	defer sim.Close()
 	st := &runState{s: Scenario{Cluster: s.Cluster}}
 	st.db = sqlfake.NewDB(nil)
@@ -155,6 +157,7 @@ func c14body(ri *simcheck.RunInfo, s C14Scenario) {
 		ri.Violations = append(ri.Violations, &simcheck.Violation{Property: "C14", Oracle: oracle, Signature: sig, Detail: detail})
 	}
 	var first, afterHist, interleaved []string
+	aborted := false
 	byPosition := false
 	var tickSQL [][]string
 	done := make(chan struct{})
@@ -175,6 +178,9 @@ func c14body(ri *simcheck.RunInfo, s C14Scenario) {
 		add("harness", "C14 sequential phase did not finish", "")
 		return
 	case <-sim.Killed():
+		// crashed or livelocked (C12's business): the translations were not all made, nothing to compare
+		ri.Probes["c14-run-aborted"]++
+		aborted = true
 	}
 	// (c) interleaved with concurrent translations
 	st.mu.Lock()
@@ -224,6 +230,18 @@ func c14body(ri *simcheck.RunInfo, s C14Scenario) {
 	sim.Kill()
 	sim.WaitStopped()
 	synctest.Wait()
+	if os.Getenv("VERIF_DEBUG") != "" {
+		for _, r := range st.reqs {
+			b := r.Body.String()
+			if len(b) > 200 {
+				b = b[:200]
+			}
+			fmt.Fprintf(os.Stderr, "C14DEBUG client=%d %s %q status=%d returned=%v panicked=%q stmts=%d byPos=%v body=%q\n", r.Client, r.Req.Kind, r.Req.Query, r.Status, r.Returned, r.Panicked, len(r.Stmts), r.ByPosition, b)
+		}
+		for _, c := range sim.Crashes {
+			fmt.Fprintf(os.Stderr, "C14DEBUG crash %s %s\n%s\n", c.Role, c.Value, c.Stack)
+		}
+	}
 
 	// follow-up statements may depend on what the database answered, so the answer is part of the identity
 	key := fmt.Sprintf("%s|%s|%s|%s|%s|%s|%s|%s|%s|%s|%+v", s.Cluster, s.Subject.Kind, s.Subject.Query, s.Subject.Start, s.Subject.End, s.Subject.Step, s.Subject.Limit, s.Subject.Direction, s.Subject.Time, s.Subject.Name, s.Subject.Result)
@@ -263,7 +281,7 @@ func c14body(ri *simcheck.RunInfo, s C14Scenario) {
 		}
 		return fmt.Sprintf("...%s... VERSUS ...%s...", cut(a), cut(b))
 	}
-	if len(sim.Crashes) == 0 {
+	if len(sim.Crashes) == 0 && sim.Livelock == "" && !aborted {
 		if i, x, y := diff(first, afterHist); i >= 0 {
 			add("sql-depends-on-history", "same request translates differently after other translations: "+s.Subject.Kind+" "+classOfQuery(s.Subject.Query),
 				fmt.Sprintf("request %s query=%q: statement #%d differs between the first translation and the one after %d other requests: %s", s.Subject.Kind, s.Subject.Query, i, len(s.History), short(x, y)))
@@ -401,7 +419,7 @@ func runTail(st *runState, sys *System, s C14Scenario) [][]string {
 	if err != nil {
 		return nil
 	}
-	deadline := time.After(time.Duration(s.TailTicks)*time.Second + 500*time.Millisecond)
+	deadline := time.After(time.Duration(s.TailTicks)*time.Second + 500*time.Millisecond + simrt.Skew())
 loop:
 	for {
 		select {
